@@ -37,8 +37,14 @@ func init() {
 			// the dual-contouring slab buffer: absolute z values, window-relative rows
 			c.runWindowIndex("WINDOWIDX", append(c.libPkgs()[:1:1], c.fixturePkg("w")))
 			c.floor("WINDOWIDX", 1)
+			c.runPartition("PARTITION", append(c.libPkgs()[:2:2], c.fixturePkg("w")), nil)
+			c.floor("PARTITION", 0)
+			c.runWorkers("WORKERS", append(c.libPkgs(), c.fixturePkg("w")))
+			c.floor("WORKERS", 2)
 		},
 		SelfTest: []Mutation{
+			{Name: "2D filtered meshing keeps one CPU for the feeder", File: "model2d/marching.go",
+				Old: "\tnumGos := runtime.GOMAXPROCS(0)\n", New: "\tnumGos := runtime.GOMAXPROCS(0) - 1\n", Rule: "WORKERS", Expect: "MarchingSquaresFilter"},
 			{Name: "refilled corners read the z values of the first slab", File: "model3d/dc.go",
 				Old: "\t\t\t\td.Zs[z+d.ZOffset],", New: "\t\t\t\td.Zs[z],", Rule: "WINDOWIDX", Expect: "Shift"},
 			{Name: "dual contouring workers append to the shared interior list", File: "model3d/dc.go",
